@@ -10,6 +10,7 @@ from engine.model import src, stmt_key, dotted, walk_no_nested
 from engine.util import own_nodes, calls_with_nodes, where
 
 RULES = {
+    "R-19.9": "absolute positioning leaves no residue of the previous position: seek(), seek_first() and seek_last() each assign every cursor state field that any of them assigns (node, index, recurse, increasing, parents, parked, parking key); and a cursor that lives across a `yield` (the consumer may mutate the tree between two steps) is registered with the tree by `with`, so mutations park it",
     "R-19.8": "the root is collapsed whenever a delete left it without keys - whether or not the key was found: the descent merges children on the way down before it knows, so an unsuccessful delete can empty the root too (an internal root with 0 keys and 1 child breaks the occupancy bound and adds a level)",
     "R-19.7": "a clone is the same tree: in BTree.__init__ every structural attribute of the copy (t, root, size) is taken from the original's attribute of the same name, so node capacity and the nodes it governs stay consistent",
     "R-19.6": "cursor direction: next() records `increasing = True` (prev(): False) on every trip before it reads an element, whether or not it had to descend first - the flag decides the descent after the next internal key and the side a parked cursor re-seeks on",
@@ -336,6 +337,47 @@ def run(model, rep, tier):
     rep.check(okk, "R-19.8", bd.qualname, where(bd, tests8[0].ast if tests8 else bd.node), "the empty-root test follows the descent on every path",
               "the `len(self.root.elts) == 0` collapse runs only on some paths after self.root.delete() (e.g. only when an element was removed): deleting an absent key can still merge the root's last two "
               "children on the way down, leaving an internal root with 0 keys and 1 child", stmt="root-collapse")
+    # ---------------------------------------------------------------- R-19.9
+    cur = model.cls("dns.btree.Cursor")
+    pos = {n_: cur.methods.get(n_) for n_ in ("seek", "seek_first", "seek_last")}
+    if any(v is None for v in pos.values()):
+        rep.blind("R-19.9", "dns.btree.Cursor", cur.file, "seek / seek_first / seek_last not all found", stmt="positioning-state")
+    else:
+        def _fields(fn_):
+            out = set()
+            for x in walk_no_nested(fn_.node):
+                if isinstance(x, (ast.Assign, ast.AnnAssign, ast.AugAssign)):
+                    for t_ in (x.targets if isinstance(x, ast.Assign) else [x.target]):
+                        for y in ([t_] if not isinstance(t_, ast.Tuple) else t_.elts):
+                            if isinstance(y, ast.Attribute) and src(y.value) == "self":
+                                out.add(y.attr)
+            # fields set through a helper called on self (e.g. _adjust_for_before sets current_index)
+            for c in walk_no_nested(fn_.node):
+                if isinstance(c, ast.Call) and isinstance(c.func, ast.Attribute) and src(c.func.value) == "self" and c.func.attr in cur.methods and c.func.attr.startswith("_"):
+                    out |= _fields(cur.methods[c.func.attr])
+            return out
+        fields = {k: _fields(v) for k, v in pos.items()}
+        union = set().union(*fields.values()) - {"parking_key_read"}
+        for k, v in sorted(pos.items()):
+            missing = sorted(union - fields[k])
+            rep.check(not missing, "R-19.9", v.qualname, where(v, v.node), f"assigns all {len(union)} position fields",
+                      f"{k}() does not assign {missing}, which the other positioning methods reset: the cursor keeps that part of its previous position (e.g. stale `parents` make prev()/next() "
+                      "climb into ancestors of the old position and return keys again)", stmt="positioning-state")
+        rep.floor("R-19.9-fields", len(union), 6)
+    n_gen = 0
+    for fg in sorted(model.all_functions(), key=lambda g: g.qualname):
+        if fg.module.name not in ("dns.btree", "dns.btreezone"):
+            continue
+        if not any(isinstance(x, (ast.Yield, ast.YieldFrom)) for x in walk_no_nested(fg.node)):
+            continue
+        for c in walk_no_nested(fg.node):
+            if isinstance(c, ast.Call) and isinstance(c.func, ast.Attribute) and c.func.attr == "cursor" and not c.args:
+                n_gen += 1
+                registered = any(isinstance(w, (ast.With, ast.AsyncWith)) and any(i.context_expr is c for i in w.items) for w in walk_no_nested(fg.node))
+                rep.check(registered, "R-19.9", fg.qualname, where(fg, c), "the generator's cursor is a `with` item (registered for parking)",
+                          f"`{src(c)}` in a generator is not entered by `with`: it is never registered, so a mutation made by the consumer between two steps does not park it and the iteration "
+                          "skips or repeats keys", stmt="generator-cursor")
+    rep.floor("R-19.9-generators", n_gen, 1)
     rep.meta["explanation"] = (
         "Ownership typestate for B-tree nodes: a fixpoint computes which _Node methods/parameters require an owned receiver (they write elts/children "
         "directly or transitively); every write and every such call in dns/btree.py is then checked with reaching definitions to have an owned receiver "
@@ -471,6 +513,11 @@ def _root_owned(cfg, at):
 
 
 WITNESSES = [
+    {"id": "c19-seek-last-keeps-parents", "rule": "R-19.9", "file": "dns/btree.py", "expect": "fires",
+     "old": "        self.current_index = 1\n        self.recurse = False\n        self.increasing = False\n        self.parents = []\n", "new": "        self.current_index = 1\n        self.recurse = False\n        self.increasing = False\n"},
+    {"id": "c19-iter-cursor-unregistered", "rule": "R-19.9", "file": "dns/btree.py", "expect": "fires",
+     "old": "        with self.cursor() as cursor:\n            while True:\n                elt = cursor.next()\n                if elt is None:\n                    break\n                yield elt.key()",
+     "new": "        cursor = self.cursor()\n        while True:\n            elt = cursor.next()\n            if elt is None:\n                break\n            yield elt.key()"},
     {"id": "c19-root-collapse-only-after-successful-delete", "rule": "R-19.8", "file": "dns/btree.py", "expect": "fires",
      "old": "        if elt is not None:\n            # We deleted something\n            self.size -= 1\n        if len(self.root.elts) == 0:",
      "new": "        if elt is not None:\n            # We deleted something\n            self.size -= 1\n        if elt is not None and len(self.root.elts) == 0:"},
